@@ -70,6 +70,7 @@ type l1LR struct {
 	readErr    error
 	// model facts taken just before the request
 	anyHas   bool
+	hasHosts map[string]bool
 	expected []byte
 }
 
@@ -131,7 +132,7 @@ func runL1(c Case, ev *evid.Collector) (vs []*evid.Violation, inconclusive strin
 		if rq.GapMs > 0 {
 			time.Sleep(time.Duration(rq.GapMs) * time.Millisecond)
 		}
-		lr := &l1LR{req: rq}
+		lr := &l1LR{req: rq, hasHosts: map[string]bool{}}
 		req := &reghttp.Req{MetaKind: reqmeta.Query, Host: upName, Method: rq.Method, Repository: repoSrc, NoMirrors: rq.NoMirrors, IgnoreErr: rq.IgnoreErr}
 		// what the eligible hosts hold right now (raw model state)
 		eligible := w.names
@@ -147,6 +148,7 @@ func runL1(c Case, ev *evid.Collector) (vs []*evid.Violation, inconclusive strin
 				if r, ok := w.host[n].Repos[repoSrc]; ok {
 					if _, ok := r.Blobs[blobDig]; ok {
 						lr.anyHas = true
+						lr.hasHosts[n] = true
 					}
 				}
 			}
@@ -158,6 +160,7 @@ func runL1(c Case, ev *evid.Collector) (vs []*evid.Violation, inconclusive strin
 				if r, ok := w.host[n].Repos[repoSrc]; ok {
 					if _, ok := r.Tags["v1"]; ok {
 						lr.anyHas = true
+						lr.hasHosts[n] = true
 					}
 				}
 			}
@@ -183,6 +186,9 @@ func runL1(c Case, ev *evid.Collector) (vs []*evid.Violation, inconclusive strin
 			req.BodyLen = int64(len(body))
 			lr.anyHas = true
 			lr.expected = nil
+			for _, n := range eligible {
+				lr.hasHosts[n] = true
+			}
 		}
 		lr.start = w.m.Requests()
 		resp, err := cl.Do(ctx, req)
@@ -317,6 +323,9 @@ func runL1(c Case, ev *evid.Collector) (vs []*evid.Violation, inconclusive strin
 			case "transient":
 				fCase++
 				fLR++
+			case "lack-injected":
+				// an injected 404 / 416 means "this host lacks it" for this request
+				delete(lr.hasHosts, e.Host)
 			case "other", "nat-err", "cap":
 				if ec.kind == "nat-err" && lr.req.Target == "missing" {
 					continue
@@ -333,6 +342,9 @@ func runL1(c Case, ev *evid.Collector) (vs []*evid.Violation, inconclusive strin
 			if ok && lr.req.Method != "PUT" {
 				add(evid.V("success-without-content", "logical request %d (%s %s) succeeded with status %d although no eligible host holds the content\n%s", i, lr.req.Method, lr.req.Target, lr.status, dumpLog(es[lr.start:lr.end])))
 			}
+			continue
+		}
+		if len(lr.hasHosts) == 0 {
 			continue
 		}
 		if lr.req.IgnoreErr && fLR > 0 {
